@@ -71,6 +71,8 @@ class Ctl:
         self.calls = 0
         self.fuel = 10 ** 9
         self.events = 0
+        self.busy_until = 0
+        self.live_timers: list = []   # (owner, event type, due ms, task) recorded by the traced async engine
 
     def reset(self) -> None:
         self.faults = set()
@@ -131,8 +133,22 @@ def make_logic(ctl: Ctl, actions: List[str], guards: List[str], services=None, d
             return v == "T"
         return guard
 
+    def mk_slow(name: str):
+        ms = int(name.split(":")[1])
+
+        async def slow(interp, ctx, event, action_def):
+            import asyncio as _aio
+
+            ctl.emit("act", action_def.type, event.type)
+            ctl.busy_until = _aio.get_event_loop().time() * 1000 + ms
+            try:
+                await _aio.sleep(ms / 1000.0)
+            finally:
+                ctl.busy_until = 0
+        return slow
+
     return MachineLogic(
-        actions={a: mk_action(a) for a in actions},
+        actions={a: (mk_slow(a) if a.startswith("slow:") else mk_action(a)) for a in actions},
         guards={g: mk_guard(g) for g in guards},
         services=dict(services or {}),
         delays=dict(delays or {}),
@@ -233,7 +249,16 @@ class _TraceMixin:
 
     def _after_timer(self, delay_sec, event, owner_id):
         self._ctl.emit("arm", owner_id, event.type)
-        return super()._after_timer(delay_sec, event, owner_id)
+        r = super()._after_timer(delay_sec, event, owner_id)
+        tm = getattr(self, "task_manager", None)
+        if tm is not None:
+            import asyncio as _aio
+
+            due = round(_aio.get_event_loop().time() * 1000 + delay_sec * 1000)
+            for t in tm.get_tasks_by_owner(owner_id):
+                if not any(t is x[3] for x in self._ctl.live_timers):
+                    self._ctl.live_timers.append((owner_id, event.type, due, t))
+        return r
 
 
 class _NullCtl(Ctl):
